@@ -553,6 +553,27 @@ func c11Sequential(c *core.Ctx, k storeKind, ns string) bool {
 		})
 		bst.BeforeChange(func(id string, before, after interface{}) error { return nil })
 	}
+	// fault injection for "a commit that fails": a second Store object over the same keys
+	// (own locks) updates the id from inside a BeforeChange listener of the first, i.e.
+	// between the read and the commit of the outer transaction - Badger then refuses the
+	// outer commit with a conflict
+	var st2 store.Store
+	conflictFor, conflictInjected := "", false
+	var conflictVal interface{}
+	if bst != nil && !k.Bare {
+		if st2, _, err = newStore(k, ns+"s"); err != nil {
+			st2 = nil
+		}
+		bst.BeforeChange(func(id string, before, after interface{}) error {
+			if st2 != nil && conflictFor == id {
+				conflictFor = ""
+				wt2 := st2.Write(id)
+				conflictInjected = wt2.Update(conflictVal) == nil
+				wt2.Close()
+			}
+			return nil
+		})
+	}
 	genIDs := 0
 	if ms, ok := st.(*mockstore.Store); ok && r.Intn(2) == 0 && !k.Bare { // the generated id is learnt from the callback
 		ms.NewID = func() string { genIDs++; return fmt.Sprintf("%s-gen%d", ns, genIDs) }
@@ -569,6 +590,35 @@ func c11Sequential(c *core.Ctx, k storeKind, ns string) bool {
 		id := ids[r.Intn(len(ids))]
 		if id == "" && r.Intn(3) > 0 {
 			id = ids[r.Intn(3)]
+		}
+		if st2 != nil && t%12 == 5 && id != "" && model[id] != "" {
+			// an Update whose commit fails: it returns an error, runs no change callback and
+			// leaves what is stored (here: what the other transaction wrote) alone
+			innerUID, outerUID := uid(), uid()
+			conflictFor, conflictVal, conflictInjected = id, mkValue(k.Typed, innerUID, "", false), false
+			before := ncb
+			wt := st.Write(id)
+			uerr := wt.Update(mkValue(k.Typed, outerUID, "", false))
+			wt.Close()
+			conflictFor = ""
+			rt := st.Read(id)
+			v, _ := rt.Value()
+			rt.Close()
+			c.Eval(1)
+			desc := map[string]interface{}{"store": k, "id": id, "update_error": fmt.Sprint(uerr), "stored_before": model[id], "written_by_other_transaction": innerUID, "outer_update_value": outerUID, "stored_after": valUID(v)}
+			switch {
+			case !conflictInjected || uerr == nil:
+				c.Obs("commit_conflicts_not_produced", 1)
+			case ncb != before:
+				desc["callback"] = *lastCB
+				c.Violation("C11/seq-callback-on-failure:"+k.Impl+":commit-conflict", fmt.Sprintf("Update of %q failed at commit (%v) but ran %d OnChange callbacks (before=%q after=%q)", id, uerr, ncb-before, lastCB.Before, lastCB.After), desc)
+			case valUID(v) != innerUID:
+				c.Violation("C11/failed-update-changed-value:"+k.Impl, fmt.Sprintf("Update of %q failed at commit (%v) yet the stored value is %q; before the call it was %q, the other transaction wrote %q", id, uerr, valUID(v), model[id], innerUID), desc)
+			default:
+				c.Obs("commit_conflicts_checked", 1)
+			}
+			model[id] = valUID(v)
+			continue
 		}
 		write := r.Intn(4) > 0
 		ops := c11RandOps(r, k, write, uid)
